@@ -54,6 +54,7 @@ CF_New == <<NC("c", I(4), <<<<"W", I(4)>>>>),                       \* exactly f
             NC("c", I(4), <<<<"W", I(1)>>, <<"E", I(2)>>>>),
             NC("c", Inf, <<<<"N", I(1)>>, <<"E", I(1)>>, <<"D", R(1, 2)>>>>),
             NC("c", I(2), <<>>),
+            NC("c", I(4), <<<<"W", I(1)>>, <<"N", R(1, 2)>>, <<"W", R(1, 2)>>>>),   \* a substance listed twice adds up
             NC("c", I(4), <<<<"W", I(2)>>, <<"N", R(-1, 2)>>>>),    \* a negative quantity
             NC("c", Inf, <<<<"D", I(-1)>>>>)>>
 
